@@ -139,11 +139,11 @@ class _PG:
                 nd["attrs"]["axis"] = ["v", "ax2", False]
             elif ax == "optvar":
                 nd["attrs"]["axis"] = ["v", "axo", True]
-            if ch.choose("oa", [None, False]) is False:
+            if ch.choose("oa", [None] if self.focus == "opt" else [None, False]) is False:
                 nd["oa"] = False
-            if ch.choose("oi", [None, True]):
+            if ch.choose("oi", [None] if self.focus == "opt" else [None, True]):
                 nd["oi"] = True
-            outs = ch.choose("nouts", ["2", "named", "1", "3"])
+            outs = ch.choose("nouts", ["2"] if self.focus == "opt" else ["2", "named", "1", "3"])
             if outs == "named":
                 nd["outs"] = ["p", "q"]
             elif outs == "1":
@@ -175,6 +175,8 @@ def pattern_driver(max_nodes, exact=False, focus=None):
         inner = [(i, k) for i in sorted(g.nodes) if i != rid for k in range(len(g.nodes[i]["outs"]))]
         menu += [f"root+in:{i}.{k}" for i, k in inner] + [f"in+root:{i}.{k}" for i, k in inner]
         menu += ["root+neg", "neg+root"]
+        if focus == "opt":
+            menu = menu[:1] + [m for m in menu[1:] if m in ("both", "second")]
         om = ch.choose("outmode", menu)
         if om == "both":
             outs = [["o", rid, 0], ["o", rid, 1]]
@@ -199,7 +201,7 @@ def pattern_driver(max_nodes, exact=False, focus=None):
                     nd["outs"] = ["p%d" % seen, "q%d" % seen][:len(nd["outs"])]
         commute = False
         if any(nd["op"] == "Add" for nd in g.nodes.values()):
-            commute = ch.choose("commute", [False, True])
+            commute = ch.choose("commute", [False] if focus == "opt" else [False, True])
         pat = {"nodes": g.nodes, "outs": outs, "commute": commute, "skel": skel}
         finish(pat)
         if not reachable_ok(pat):
